@@ -322,7 +322,7 @@ package res
 //@   callback Get handler
 //@   callback New handler
 //@   callback h handler
-//@   dead return1
+//@   dead src:Unknown request type
 //@   ensures answered: imp(!(r.rtype == "access" && r.h.Access == nil), r.replied && rcount[ref(r)] == 1)
 //@   ensures silent: imp(r.rtype == "access" && r.h.Access == nil, rcount[ref(r)] == 0)
 //@   ensures frame: same(r.rtype, old(r.rtype)) && same(r.method, old(r.method)) && same(r.h, old(r.h))
@@ -637,3 +637,22 @@ package res
 //@ func (r *Request) TokenEvent(token interface{})
 //@   requires reqOK(r) && len(r.cid) > 0 && forall(k, 0, len(r.cid), partch(r.cid[k]))
 //@   modifies ghost.trn, ghost.trk, ghost.tra, ghost.pubn, alloc
+//@
+//@ # ================================================================ wire format (C18)
+//@ props C18
+//@ func (r Ref) MarshalJSON() (out []byte, err error)
+//@   dead src:return nil, err
+//@   replay_domain 3 "a\"\\."
+//@   modifies alloc, bytes
+//@   ensures ok: isNil(err) && len(out) == jlen(string(r)) + 8
+//@   ensures prefix: bytes(out)[0:7] == "{\"rid\":"
+//@   ensures body: forall(k, 0, jlen(string(r)), bytes(out)[7+k] == jchar(string(r), k))
+//@   ensures suffix: bytes(out)[len(out)-1] == '}'
+//@ func (r SoftRef) MarshalJSON() (out []byte, err error)
+//@   dead src:return nil, err
+//@   replay_domain 3 "a\"\\."
+//@   modifies alloc, bytes
+//@   ensures ok: isNil(err) && len(out) == jlen(string(r)) + 20
+//@   ensures prefix: bytes(out)[0:7] == "{\"rid\":"
+//@   ensures body: forall(k, 0, jlen(string(r)), bytes(out)[7+k] == jchar(string(r), k))
+//@   ensures suffix: bytes(out)[len(out)-13:] == ",\"soft\":true}"
